@@ -3,6 +3,7 @@
 pub mod rng;
 pub mod tiny;
 pub mod policy;
+pub mod cache;
 
 use std::io::Write;
 
